@@ -1,5 +1,5 @@
 /-
-  Driver.C18 — stream `coll`: payload `(forest ops)`
+  Driver.C18 — stream `C18`: payload `(forest ops)`
     forest := ( tree* )        tree := ( uid tree* )
     ops    := ( op* )          op   := (ctor x*) | (add x*) | (iadd x*) | (sub x*) | (isub x*) | (uniq x*)
   Output: one observation per op (see `obs`), or `(raise)` and stop.
